@@ -238,13 +238,16 @@ def encode_float(float_number: float | None) -> int:
     return encoded_int
 
 
-def decode_number(data_raw: int, bit_offset: int, bit_length: int, signed: bool, resolution: float, min_value: float, max_value: float) -> Optional[float]:
+def decode_number(data_raw: int, bit_offset: int, bit_length: int, signed: bool, resolution: float, min_value: float, max_value: float, offset: float = 0) -> Optional[float]:
     """
     The function follows specific decoding rules based on the bit length of the number:
     - For numbers using 2 or 3 bits, the maximum value indicates the field is not present (None is returned).
     - For numbers using 4 bits or more, the maximum positive value indicates the field is not present (None is returned).
+    - Fields with an offset use Excess-K notation: the raw value is unsigned and the offset is added after scaling.
     """
     number_int = decode_int(data_raw, bit_offset, bit_length)
+    if offset:
+        signed = False
 
     #make it signed using sign extension operation
     if signed:
@@ -262,6 +265,8 @@ def decode_number(data_raw: int, bit_offset: int, bit_length: int, signed: bool,
 
     # adjust resolution
     number_int *= resolution
+    if offset:
+        number_int += offset
 
     # raw * resolution is rounded (65532 * 0.1 = 6553.200000000001): allow half a step so that
     # the exact range ends are not rejected; the neighbouring raw value is a full step away
@@ -277,7 +282,8 @@ def encode_number(
     value: float | None,
     bit_length: int,
     signed: bool,
-    resolution: float
+    resolution: float,
+    offset: float = 0
 ) -> int:
     """
     Encodes a number into a bitfield within an integer.
@@ -286,6 +292,10 @@ def encode_number(
     - Applies resolution scaling and sign encoding.
     - Modifies the bits in `data_raw` at the specified offset and returns the new value.
     """
+    if offset:
+        # Excess-K notation: the raw value is unsigned, the offset is removed before scaling
+        signed = False
+
     if value is None:
         # Set to "not available" value
         if bit_length <= 3:
@@ -296,7 +306,7 @@ def encode_number(
             return (1 << bit_length) - 1
 
     # Scale using resolution
-    number_int = int(round(value / resolution))
+    number_int = int(round((value - offset) / resolution))
 
     # Check bounds
     if signed:
